@@ -86,6 +86,8 @@ func NewCtx() *Ctx {
 
 func (c *Ctx) NumTerms() int { return len(c.terms) }
 
+func (c *Ctx) TermByID(id int) *Term { return c.terms[id] }
+
 func (c *Ctx) mk(t *Term) *Term {
 	var sb strings.Builder
 	fmt.Fprintf(&sb, "%d/%d/%d/%d/%s", t.Op, t.W, t.Val, t.Aux, t.Name)
